@@ -61,6 +61,9 @@ CLAIMED = {
  "C19": ("exploration", "runtime monitoring: the compiled emitted lexer runs as a child process over automaton-derived inputs and a buffer-alignment padding sweep; its token stream is compared with a reference simulator of the documented scanning discipline on emerge's own automaton",
          "Emitted lexers are built and driven with inputs generated from their automata (accepting walks, near-misses, stray and multi-byte characters, non-discardable white space, small read chunks) and with paddings that move tokens across every buffer-half alignment; kind, lexeme, offset, line, column and the final EOF/error must equal the reference simulator's.",
          "Trusted base: R5 simulator (60 lines) over Spec.DFA(). Lexemes shorter than one buffer half.", "5/C19"),
+ "C17": ("exploration", "runtime monitoring: Go race detector over concurrent parses (reports parsed and classified by owning package) plus sequential-history differential monitor against isolated fresh-process baselines",
+         "About 60 specifications and patterns are processed in many orders in one process and every result is compared with the result of a fresh process that handled only that item; a race-instrumented build runs 16 goroutines over the same items and every race report is attributed to its owning package: any report owned by emerge is a violation; reports owned only by the dependency are the open finding D16.",
+         "The detector generalises over timings only for unsynchronised accesses actually executed; while dependency races are present concurrent result mismatches cannot be attributed and are not judged.", "5/C17"),
 }
 
 PENDING_REASON = "check not built yet in this round (planned, see DESIGN.md section 5)"
